@@ -337,7 +337,11 @@ class Ctx:
     def overlay(self, entries):
         """entries: repo-relative path -> absolute path of the file to inject.
         The shared helper package internal/verifh is always injected."""
-        rep = {os.path.join(REPO, "internal/verifh/verifh.go"): os.path.join(VERIF, "harness/verifh/verifh.go")}
+        rep = {}
+        hd = os.path.join(VERIF, "harness/verifh")
+        for fn in sorted(os.listdir(hd)):
+            if fn.endswith(".go"):
+                rep[os.path.join(REPO, "internal/verifh", fn)] = os.path.join(hd, fn)
         for k, v in entries.items():
             rep[os.path.join(REPO, k)] = v if os.path.isabs(v) else os.path.join(VERIF, v)
         p = os.path.join(self.work, "overlay.json")
